@@ -1,7 +1,7 @@
 """The behavioural correspondence flow shared by the guard-level properties: render a corpus
 of declarations, build it against /repo's working tree, run operations on the real
 generated code and on the model (extracted from Coq), and diff the outcomes."""
-import os, time, json
+import shutil, os, time, json
 from common import *
 import engine, runner
 from syntax import val_sexp
@@ -215,3 +215,33 @@ def expand_inventory(ws):
                 parts = line.split("|")
                 recs.setdefault(parts[0], []).append(parts[1:])
     return recs
+
+
+_ZOO = {}
+
+
+def run_zoo():
+    """harness/zoo: declarations over inner types outside the modelled families, checked
+    in-process against the inner value / a hand-written reference.  Returns
+    (ok, {property: [(type, check, passed, detail)]} or error text)"""
+    if "r" in _ZOO:
+        return _ZOO["r"]
+    src = os.path.join(VERIF, "harness", "zoo")
+    work = os.path.join(BUILD, "zoo")
+    os.makedirs(os.path.join(work, "src"), exist_ok=True)
+    from runner import write_if_changed
+    write_if_changed(os.path.join(work, "Cargo.toml"), open(os.path.join(src, "Cargo.toml")).read().replace('"/repo/nutype"', '"%s/nutype"' % REPO))
+    write_if_changed(os.path.join(work, "src", "main.rs"), open(os.path.join(src, "src", "main.rs")).read())
+    shutil.copyfile(os.path.join(REPO, "Cargo.lock"), os.path.join(work, "Cargo.lock"))
+    with flock("cargo_zoo"):
+        p = run(["cargo", "run", "--offline", "-q"], cwd=work, timeout=1500)
+    if p.returncode != 0 or "zoo done" not in p.stdout:
+        _ZOO["r"] = (False, (p.stderr or p.stdout)[-1500:])
+        return _ZOO["r"]
+    out = {}
+    for line in p.stdout.splitlines():
+        parts = line.split(" ", 5)
+        if len(parts) >= 5 and parts[0] == "zoo" and parts[4] in ("ok", "FAIL"):
+            out.setdefault(parts[1], []).append((parts[2], parts[3], parts[4] == "ok", parts[5] if len(parts) > 5 else ""))
+    _ZOO["r"] = (True, out)
+    return _ZOO["r"]
